@@ -15,7 +15,7 @@ def ensure_repo_on_path():
         sys.path.insert(0, core.REPO)
     deps = os.path.join(core.BUILD, ".pydeps")
     if deps not in sys.path:
-        sys.path.append(deps)
+        sys.path.insert(1, deps)      # before the venv's site-packages: jsonschema needs its own (newer) attrs
 
 
 def exec_module(src, name=None):
